@@ -25,9 +25,10 @@ type DecodeError struct {
 	Field  string // short | type | version | ihl | totlen | hdr-truncated | proto | fragment | doff | length | htype | ptype | sizes | body
 	Detail string // canonical, value carrying: "version=6", "hlen=2,plen=4"
 	Ord    int    // numeric order of the detail inside the field (smallest witness first)
+	Note   string // context that is not part of the witness's identity: "<hdr=24"
 }
 
-func (m *DecodeError) Error() string { return m.Layer + ":" + m.Field + ":" + m.Detail }
+func (m *DecodeError) Error() string { return m.Layer + ":" + m.Field + ":" + m.Detail + m.Note }
 
 // Class is the root-cause class of the defect: layer and field without the value.
 func (m *DecodeError) Class() string { return m.Layer + "-" + m.Field }
@@ -240,7 +241,9 @@ func DecodeIPv4(b []byte) (IPv4, error) {
 		return ip, decBad("ip4", "hdr-truncated", len(b), "ihl=%d,len=%d", ip.IHL, len(b))
 	}
 	if int(ip.TotalLen) < hl {
-		return ip, decBad("ip4", "totlen", int(ip.TotalLen), "totlen=%d<hdr=%d", ip.TotalLen, hl)
+		e := decBad("ip4", "totlen", int(ip.TotalLen), "totlen=%d", ip.TotalLen)
+		e.Note = fmt.Sprintf("<hdr=%d", hl)
+		return ip, e
 	}
 	ip.Header = b[:hl]
 	ip.Options = b[20:hl]
